@@ -32,7 +32,8 @@ Q_TOK = ["'", '"', "it's", '"q', 'q"', "...", "a...", "…"]
 LATE_TOK = ["`a\\|b`", "[l\\|m](u\\|v)", "<a href=\"x\\|y\">", "{% t a...b %}", "{{ v...w|f('it's') }}", "{# c...d #}", "<!-- c...d -->",
             # appended later: legal but unusual spellings
             "[a](<>)", "[a]()", "<HTTP://U.V/it's>", "<o'r@b.cc>", "mailto:a@b.cc", "`` ` ``", "[![i](u 't')](v \"w\")", "[a][]", "<br/>",
-            "www.a.b/c_d.", "http://a.b/c)", "http://a.b/c?d=e&amp;f=\"g\"", "[a](u 'it''s')", "[a](</u v>)", "![](u)"]
+            "www.a.b/c_d.", "http://a.b/c)", "http://a.b/c?d=e&amp;f=\"g\"", "[a](u 'it''s')", "[a](</u v>)", "![](u)",
+            "![i][r]", "![r]", "[r][]", "[r]"]
 ALPH = SPANS_TOK + Q_TOK + LATE_TOK
 REPS = [ALPH.index(t) for t in ("aa", "`c d`", '[l](u "t")', "<http://u.v/it's>", "{% t a=\"x y\" b='z' %}", '"q', 'q"', "...", "it's")]
 
